@@ -18,6 +18,8 @@ while read -r P; do
   LIST_C="$CHECKS"
   # OWN = the check of the property the patch directory is named after (.../C07-s3/patch.diff -> C07)
   [ "$CHECKS" = "OWN" ] && LIST_C=$(basename $(dirname "$P") | cut -c1-3)
+  # "OWN+ C01 C02": the own check plus the listed ones
+  case "$CHECKS" in "OWN+ "*) own=$(basename $(dirname "$P") | cut -c1-3); LIST_C="$own"; for x in ${CHECKS#OWN+ }; do [ "$x" != "$own" ] && LIST_C="$LIST_C $x"; done;; esac
   for c in $LIST_C; do
     timeout 900 $D/verif/check $c --tier quick > $D/last.log 2>&1; rc=$?
     kind=$(grep -m1 -E "^   [a-z0-9-]+:" $D/last.log | sed 's/^ *//' | cut -c1-300)
